@@ -2,6 +2,9 @@ import ModVerif.Drv.Util
 import ModVerif.Drv.TlogUtil
 import ModVerif.Drv.Tlog
 import ModVerif.Generated.FnTlog
+import ModVerif.Generated.FnTlogNote
+import ModVerif.Basic.Base64
+import ModVerif.Model.TlogNote
 /-! Handlers that run the code REGENERATED from sumdb/tlog/tlog.go (Generated/FnTlog.lean) on the same ops as the
     hand model.  Hash type = Bytes with the executable SHA-256 node hash. -/
 namespace ModVerif.Drv.GenTlog
@@ -60,3 +63,39 @@ def handle : Handler
   | _, _ => none
 
 end ModVerif.Drv.GenTlog
+
+/-! tlog/note.go (Generated/FnTlogNote.lean): tree heads and records as text -/
+namespace ModVerif.Drv.GenTlogNote
+open ModVerif ModVerif.Drv ModVerif.Drv.TlogUtil ModVerif.GoRt
+open ModVerif.Generated.TlogNote
+
+def b64decI (s : Bytes) : Bytes × Option String :=
+  match Base64.decodeStd s with
+  | some b => (b, none)
+  | none => ([], some "illegal base64 data")
+
+def handle : Handler
+  | "formattree", [n, h] => do
+    let n ← int? n; let h ← hx h
+    pure (xh (FormatTree ModVerif.TlogNote.hashString ({ N := n, Hash := h } : Tree Bytes)))
+  | "parsetree", [t] => do
+    let t ← hx t
+    pure (match ParseTree b64decI id t with
+      | .ok (tr, none) => s!"{tr.N} {xh tr.Hash}"
+      | .ok (_, some _) => "err"
+      | .error e => e.toString)
+  | "formatrecord", [idn, t] => do
+    let idn ← int? idn; let t ← hx t
+    pure (match FormatRecord (t.length + 8) idn t with
+      | .ok (m, none) => xh m
+      | .ok (_, some _) => "err"
+      | .error e => e.toString)
+  | "parserecord", [m] => do
+    let m ← hx m
+    pure (match ParseRecord (m.length + 8) m with
+      | .ok (idn, text, rest, none) => s!"{idn} {xh text} {xh rest}"
+      | .ok (_, _, _, some _) => "err"
+      | .error e => e.toString)
+  | _, _ => none
+
+end ModVerif.Drv.GenTlogNote
